@@ -17,6 +17,12 @@ theorem sequencePool_defer : Generated.skelSequencePool.take 5 = expectedDefer :
 
 theorem sequence_rotation : Generated.skelSequence = expectedSequence := by decide
 
+theorem runSequencer_loop : Generated.skelRunSequencer = expectedRunSequencer := by decide
+
+theorem addLeafToPool_order : Generated.skelAddLeafToPool = expectedAddLeaf := by decide
+
+theorem uploadIssuer_order : Generated.skelUploadIssuer = expectedUploadIssuer := by decide
+
 theorem applyStaged_awaits_all : Generated.skelApplyStagedUploads = expectedApply := by decide
 
 theorem createLog_order : (Generated.skelCreateLog.filter fun l => hasPrefix "call " l) = expectedCreate := by decide
